@@ -5,6 +5,7 @@ From PGV Require Import Model.RuleText Model.Value Model.Clause Model.Rules Spec
 From PGV Require Import Proofs.SizeProofs Proofs.C01Final Run.Run_C01.
 From PGV Require Import Spec.RuleTextSpec Proofs.NumProofs Proofs.C01Builder.
 From PGV Require Import Base.MiniGo Extracted.SourceFnsSize Model.GoSize Proofs.GoSizeProofs.
+From PGV Require Import Extracted.SourceFnsRule Model.GoRule Proofs.GoRuleProofs.
 Open Scope Z_scope.
 
 (* to / oto: for EVERY rule text whose value the code parses to integer bounds lo~hi (negative,
@@ -84,6 +85,40 @@ Theorem C01_source_never_stuck :
           [KStr; KFlt true; KFlt false; KIntW W8; KIntW WInt; KUintW W8; KUintW WInt; KSlc; KOtherKind "Bool"] = true.
 Proof. exact size_never_stuck. Qed.
 Print Assumptions C01_source_never_stuck.
+
+(* The eight rule functions To, OTo, Ge, Gt, Le, Lt, Eq, NoEq (valid/validfn.go) are glue around those pieces: read the
+   rule text, read the bound(s), compare, and write one clause or nothing.  fn_To ... fn_NoEq are their syntax trees,
+   regenerated on every run.  Under the semantics of Model/GoRule.v — where a call means the callee's model, each tied
+   to the source by its own theorem (parser C14, size comparison and eq above, formatter C15, ToStr C05), the unit text
+   U and the text FE of GetJoinFieldErr left abstract — each writes, for EVERY rule text, names and value, exactly the
+   text of Proofs/GoRuleProofs.v: the bound on the right side, the closed or open mode, the custom message alone or the
+   default wording.  A change that swaps a bound, a mode or a branch in any of them makes this proof fail. *)
+Theorem C01_rule_functions_from_source : forall (U : val -> str) (FE : str -> str -> ftext -> str) vn obj field v,
+  run_rule U FE fn_To vn obj field v = Some (to_text U FE true vn obj field v) /\
+  run_rule U FE fn_OTo vn obj field v = Some (to_text U FE false vn obj field v) /\
+  run_rule U FE fn_Ge vn obj field v = Some (one_text U true true vn obj field v) /\
+  run_rule U FE fn_Gt vn obj field v = Some (one_text U true false vn obj field v) /\
+  run_rule U FE fn_Le vn obj field v = Some (one_text U false true vn obj field v) /\
+  run_rule U FE fn_Lt vn obj field v = Some (one_text U false false vn obj field v) /\
+  run_rule U FE fn_Eq vn obj field v = Some (eq_text U true vn obj field v) /\
+  run_rule U FE fn_NoEq vn obj field v = Some (eq_text U false vn obj field v).
+Proof. exact size_rules_from_source. Qed.
+Print Assumptions C01_rule_functions_from_source.
+
+(* ... and they write nothing exactly when the model's rule function (the one the theorems above judge) reports no
+   clause: the verdict of the model IS the verdict of the source text *)
+Theorem C01_rule_verdict_from_source : forall (U : val -> str) (FE : str -> str -> ftext -> str),
+  (forall o f t, FE o f t <> []) -> forall vn obj field v,
+  (run_rule U FE fn_To vn obj field v = Some [] <-> rTo vn obj field v = []) /\
+  (run_rule U FE fn_OTo vn obj field v = Some [] <-> rOTo vn obj field v = []) /\
+  (run_rule U FE fn_Ge vn obj field v = Some [] <-> rGe vn obj field v = []) /\
+  (run_rule U FE fn_Gt vn obj field v = Some [] <-> rGt vn obj field v = []) /\
+  (run_rule U FE fn_Le vn obj field v = Some [] <-> rLe vn obj field v = []) /\
+  (run_rule U FE fn_Lt vn obj field v = Some [] <-> rLt vn obj field v = []) /\
+  (run_rule U FE fn_Eq vn obj field v = Some [] <-> rEq vn obj field v = []) /\
+  (run_rule U FE fn_NoEq vn obj field v = Some [] <-> rNoEq vn obj field v = []).
+Proof. exact size_rules_write_iff_clause. Qed.
+Print Assumptions C01_rule_verdict_from_source.
 
 (* THROUGH THE RULE TEXT, unbounded: strconv.Itoa then strconv.Atoi is the identity on every int64,
    and for every pair of int64 bounds the text  key=lo~hi[|msg]  (resp. key=b[|msg]) written by the
